@@ -351,6 +351,7 @@ def main():
         u, k = f["calls"].split("/")
         if u != k: return "construction: the model consulted %s of %s recorded std::nth_element calls" % (u, k)
         if f["modelwf"] != "WF": return "construction: the model tree fails wf_treeb (contradicts kd_build_wellformed): %s" % f["built"]
+        if f["sortoracle"] != "same": return "construction: kd_build with the sorting oracle gives a different tree than with the recorded std::nth_element results (contradicts kd_build_oracle_independent): %s" % md[:300]
         if not count: return None
         bstat["trees"] += 1; bstat["nth_calls"] += int(k); bstat["sortoracle_same"] += f["sortoracle"] == "same"
         bstat["inner_nodes"] += f["built"].count("N")
